@@ -69,6 +69,9 @@ class Sim:
     def clear(self):
         self.set_budget(None)
 
+    def buffered(self, flag):
+        (self.env.fs if self.rs is None else self.rs).buffered = flag
+
     def rmtree_reverse(self, flag):
         if self.rs is None:
             self.env.fs.rmtree_reverse = flag
@@ -105,7 +108,7 @@ def recover(env, fn, combos):
     return crop.reap()
 
 
-def body_raw(E, phase, c, c2, rev, K, base):
+def body_raw(E, phase, c, c2, rev, K, base, buf=False):
     phase = concretize(phase, 0, 4)
     K = concretize(K, 2, 3)
     c = concretize(c, 0, 40)
@@ -115,6 +118,7 @@ def body_raw(E, phase, c, c2, rev, K, base):
     with E() as env:
         sim = Sim(env, K)
         sim.rmtree_reverse(cbool(rev))
+        sim.buffered(cbool(buf))
         ref = combo_runner(fn, combos, verbosity=0)
         crop = cp.Crop(fn=fn, name="t", parent_dir=env.parent, batchsize=BS)
         if phase >= 1:
@@ -301,14 +305,15 @@ BODIES = {}
 _G = globals()
 
 CONDS = (
-    split_conds(_G, "raw", body_raw, "c:int c2:int rev:bool base:int",
+    split_conds(_G, "raw", body_raw, "c:int c2:int rev:bool base:int buf:bool",
                 ["0 <= c <= 22 and c2 == 40 and not rev"], "phase", [0, 1, 2, 3, 4],
                 fixed=dict(K=2), timeout=900,
-                bounds="raw crop of 3 settings in 2 batches, K=2 chunks per file; the process is killed after c "
+                bounds="raw crop of 3 settings in 2 batches, K=2 chunks per file, written during pickle.dump or only "
+                       "when the handle is closed (buffered); the process is killed after c "
                        "steps (every c up to the length of the phase) of: " + "; ".join(
                            "%d %s" % (k, v) for k, v in PHASES.items() if k <= 4) +
                        "; then safety reap and recovery by fresh processes")
-    + split_conds(_G, "raw_second_crash", body_raw, "c:int c2:int rev:bool base:int",
+    + split_conds(_G, "raw_second_crash", body_raw, "c:int c2:int rev:bool base:int buf:bool",
                   ["0 <= c <= 22 and 0 <= c2 <= 30"], "phase", [0, 2, 4], fixed=dict(K=2), timeout=3600,
                   tiers=("thorough",),
                   bounds="as raw, plus a second kill after c2 steps of the recovery, and both rmtree orders")
